@@ -493,7 +493,13 @@ func (c *opCtx) scopeOr(d string) string {
 }
 
 // run is the state of one scenario.
+type handedCtx struct {
+	ctx   context.Context
+	scope string
+}
+
 type runState struct {
+	handed       []handedCtx // contexts handed to constructors during the call in progress (sequential mode)
 	mu           sync.Mutex
 	cmu          sync.Mutex
 	cfg          *Cfg
@@ -642,7 +648,13 @@ func argCtx(c context.Context) argRec {
 	if s.Context() != c {
 		return argRec{K: "ctx", Ids: []int{}, S: "?derived"}
 	}
-	return argRec{K: "ctx", Ids: []int{}, S: scopeName(s)}
+	name := scopeName(s)
+	if !R.concurrent && !R.bare {
+		R.mu.Lock()
+		R.handed = append(R.handed, handedCtx{c, name})
+		R.mu.Unlock()
+	}
+	return argRec{K: "ctx", Ids: []int{}, S: name}
 }
 
 func argProv(p godi.Provider) argRec {
@@ -1139,6 +1151,9 @@ func checkCtx(name string, s godi.Scope, o *Op, parentMarker string, parentName 
 
 func doOp(o *Op) {
 	R.cur = &opCtx{op: o.Op, scope: o.Sc}
+	R.mu.Lock()
+	R.handed = nil
+	R.mu.Unlock()
 	switch o.Op {
 	case "build":
 		R.cur.scope = "root"
@@ -1257,6 +1272,13 @@ func doOp(o *Op) {
 			if old, ok := R.scopes[o.Name]; ok && old != s {
 				delete(R.names, old) // the scope the initializers saw is not the one returned
 				ret["ctxok"] = false
+			}
+			for _, h := range R.handed {
+				// what was constructed while the scope was being created was handed THE scope's context: the one
+				// the returned scope answers with (and that its Close cancels)
+				if h.scope == o.Name && h.ctx != s.Context() {
+					ret["ctxok"] = false
+				}
 			}
 			R.scopes[o.Name] = s
 			R.names[s] = o.Name
